@@ -12,6 +12,11 @@
 //	checklist <windowIndex> <seed:64hex> <k>
 //	    k = numerator of the Float64 draw (Float64() = k / 2^53) of the same source.
 //	    obs = the action types of the real getActionsChecklist, comma separated (`-` = nil).
+//	lseq <view> <seed:64hex> <rng> [<seed:64hex> <rng>]...
+//	    a SEQUENCE of leader elections (one per coordination window) on ONE long-lived executor,
+//	    as the node keeps one executor per wallet; every election is also asked of a fresh
+//	    executor (a member with a different call history, e.g. restarted).
+//	    obs = <leaders of the long-lived executor> <leaders of fresh executors>
 //	coord <walletScalar> <pkh:40hex> <block> <hashPrefix:48hex> <rng> <k> <views>
 //	    whole pipeline: getSeed (safe block hash = hashPrefix ++ BE64(number asked for)),
 //	    then leader per view and checklist for the window index. pkh = HASH160 of the
@@ -200,7 +205,9 @@ func seedWithDraw(r *hx.Rng, want bool) [32]byte {
 func gen(r *hx.Rng, n int, tier string) []string {
 	var ops []string
 	for i := 0; i < n; i++ {
-		switch r.Intn(10) {
+		switch r.Intn(12) {
+		case 10, 11:
+			ops = append(ops, genLseq(r))
 		case 0, 1, 2, 3, 4:
 			seed := genSeed(r)
 			ops = append(ops, fmt.Sprintf("leader %x %s %s", seed, rngTable(seed, maxSeats), genViews(r)))
@@ -228,6 +235,29 @@ func gen(r *hx.Rng, n int, tier string) []string {
 		}
 	}
 	return ops
+}
+
+// genLseq: 2-8 consecutive windows on one executor; seeds sometimes repeat.
+func genLseq(r *hx.Rng) string {
+	var view string
+	for {
+		view = strings.Split(genViews(r), "/")[0]
+		if r.Chance(1, 4) || strings.Count(view, ",") >= 2 { // mostly groups where a shuffle matters
+			break
+		}
+	}
+	n := r.Range(2, 8)
+	var seeds [][32]byte
+	var parts []string
+	for i := 0; i < n; i++ {
+		seed := genSeed(r)
+		if i > 0 && r.Chance(1, 4) {
+			seed = seeds[r.Intn(len(seeds))]
+		}
+		seeds = append(seeds, seed)
+		parts = append(parts, fmt.Sprintf("%x %s", seed, rngTable(seed, maxSeats)))
+	}
+	return "lseq " + view + " " + strings.Join(parts, " ")
 }
 
 func genCoord(r *hx.Rng) string {
@@ -314,6 +344,31 @@ func exec(op string) (string, string) {
 			return "bad-op", "bad"
 		}
 		return leaders(seed, parseViews(f[3]))
+	case f[0] == "lseq" && len(f) >= 4 && len(f)%2 == 0:
+		views := parseViews(f[1])
+		if len(views) != 1 {
+			return "bad-op", "bad"
+		}
+		long := tbtc.VerifC22NewExecutor(nil, nil, views[0])
+		var ll, fl []string
+		seen := map[string]bool{}
+		tag := "lseq"
+		for i := 2; i < len(f); i += 2 {
+			seed, ok := parseSeed(f[i])
+			if !ok {
+				return "bad-op", "bad"
+			}
+			if seen[f[i]] && !strings.Contains(tag, "repeatseed") {
+				tag += "+repeatseed"
+			}
+			seen[f[i]] = true
+			ll = append(ll, string(long.GetLeader(seed)))
+			fl = append(fl, string(tbtc.VerifC22NewExecutor(nil, nil, views[0]).GetLeader(seed)))
+		}
+		if len(ll) >= 3 {
+			tag += "+long"
+		}
+		return strings.Join(ll, ",") + " " + strings.Join(fl, ","), tag
 	case f[0] == "checklist" && len(f) == 4:
 		seed, ok := parseSeed(f[2])
 		if !ok {
